@@ -105,7 +105,7 @@ Example C02_ex_model : compare KMixed [VStr "a"; VFlt FNan; VInt 2] CNe (MSet [P
 Proof. vm_compute. reflexivity. Qed.
 Example C02_ex_proved_dom : proved_dom KInt CGe (RScalar (VInt 7)) = true /\ proved_dom KFloat CEq (RScalar (VFlt (FInf true))) = true.
 Proof. split; reflexivity. Qed.
-(* the excluded case: IntColumn == object selects no row in the model of the code, every row in the spec *)
-Example C02_int_object_refuted :
-  compare KInt [VInt 1] CEq (MType TObject) = Ok [] /\ sel_positions CEq (RType TObject) [VInt 1] = [0%nat].
+(* IntColumn == object (repaired: the code used to test `other is int`): every int is an object *)
+Example C02_int_object :
+  compare KInt [VInt 1] CEq (MType TObject) = Ok [0%nat] /\ sel_positions CEq (RType TObject) [VInt 1] = [0%nat].
 Proof. split; vm_compute; reflexivity. Qed.
